@@ -50,6 +50,11 @@ def logu(rng, lo, hi):
 
 
 def gen_freqs(rng, n, skew):
+    if rng.random() < 0.12:
+        # almost, but not exactly, uniform (the first steps of an optimiser away from the usual starting point)
+        x = [1.0 + rng.uniform(-1, 1) * rng.choice([1e-7, 1e-6, 4e-6]) for _ in range(n)]
+        s = sum(x)
+        return [v / s for v in x]
     x = [logu(rng, 1e-6, 1.0) for _ in range(n)] if skew else [rng.uniform(0.05, 1.0) for _ in range(n)]
     s = sum(x)
     return [v / s for v in x]
